@@ -108,7 +108,32 @@ def rgb_byte():
     return rng.choice([0, 0, 1, 9, 10, 99, 100, 127, 128, 254, 255, 255, rng.randrange(256), rng.randrange(256)])
 
 
+RECENT = []   # colours handed out recently in this history stream: near-misses of them are worth asking for
+
+
 def colour(cfg):
+    # near-miss of a recent colour: same index with the RGB secondary added (notably #000000, which reads back like
+    # "no RGB" through the getter), dropped, or changed in one component -- the cases an "already equal?" test can get wrong
+    if RECENT and rng.random() < 0.18:
+        idx, rgb = rng.choice(RECENT[-6:])
+        kind = rng.random()
+        if rgb is None:
+            nm = (idx, (0, 0, 0)) if kind < 0.6 else (idx, (rgb_byte(), rgb_byte(), rgb_byte()))
+        elif kind < 0.4:
+            nm = (idx, None)
+        elif kind < 0.7:
+            q = list(rgb); q[rng.randrange(3)] = rng.choice([0, 255, (q[0] + 1) % 256]); nm = (idx, tuple(q))
+        else:
+            nm = (idx, (0, 0, 0))
+        RECENT.append(nm)
+        return nm
+    r = _colour(cfg)
+    RECENT.append(r)
+    del RECENT[:-12]
+    return r
+
+
+def _colour(cfg):
     c = cfg["colors"]
     idx = rng.choice([-1, -1, 0, 1, 7, 8, 9, 15, 16, 17, c - 1, c, c + 1, 87, 88, 200, 231, 232, 254, 255,
                       rng.randrange(256), rng.randrange(256), rng.randrange(16)])
